@@ -10,6 +10,7 @@ import (
 	"fmt"
 
 	"wa-lang.org/wa/internal/ast"
+	"wa-lang.org/wa/internal/constant"
 	"wa-lang.org/wa/internal/token"
 	"wa-lang.org/wa/internal/types"
 )
@@ -238,6 +239,11 @@ func emitConv(f *Function, val Value, typ types.Type) Value {
 
 	// Conversion of a compile-time constant value?
 	if c, ok := val.(*Const); ok {
+		if bt, ok := ut_dst.(*types.Basic); ok && c.IsNil() && bt.Info()&types.IsString != 0 {
+			// string([]byte(nil)), string([]rune(nil)): the empty string,
+			// not a string constant without a value.
+			return NewConst(constant.MakeString(""), typ)
+		}
 		if _, ok := ut_dst.(*types.Basic); ok || c.IsNil() {
 			// Conversion of a compile-time constant to
 			// another constant type results in a new
